@@ -27,6 +27,7 @@ import (
 	"encoding/base64"
 	"encoding/binary"
 	"encoding/json"
+	"errors"
 	"fmt"
 	"io"
 	"os"
@@ -45,6 +46,7 @@ import (
 	nutscrypto "github.com/nuts-foundation/nuts-node/crypto"
 	"github.com/nuts-foundation/nuts-node/storage"
 	"github.com/nuts-foundation/nuts-node/vcr"
+	"github.com/nuts-foundation/nuts-node/vcr/credential"
 	"github.com/nuts-foundation/nuts-node/vcr/pe"
 	"github.com/nuts-foundation/nuts-node/verifshim/vtime"
 	"github.com/sirupsen/logrus"
@@ -57,6 +59,7 @@ import (
 
 const (
 	c16Service     = "c16_service"
+	c16ServiceB    = "c16_service_b" // a second discovery service, served by the same server and followed by the same client
 	c16MaxValidity = 10 * 3600 // seconds
 	c16Long        = 7 * 3600  // validity of an ordinary registration
 	c16Short       = 1 * 3600  // validity of a short registration
@@ -138,6 +141,10 @@ func (c c16Rand) Read(p []byte) (int, error) {
 	return len(p), nil
 }
 
+// c16Cur is the service the harness helpers currently operate on (rows, reference predicate, minted audiences,
+// reference list). (*c16World).on switches it together with the per-service reference list.
+var c16Cur = c16Service
+
 func c16Definition(authority string) ServiceDefinition {
 	str := func(s string) *string { return &s }
 	return ServiceDefinition{
@@ -183,7 +190,9 @@ func c16NewEnv(t *testing.T, r *ev.Run) *c16Env {
 	for _, p := range append(append([]*c16Party{}, e.subjects...), e.authority, e.mallory, e.keyHolder) {
 		e.byDID[p.did] = p
 	}
-	e.defs = map[string]ServiceDefinition{c16Service: c16Definition(e.authority.did)}
+	defB := c16Definition(e.authority.did)
+	defB.ID, defB.Endpoint = c16ServiceB, "http://c16.invalid/discovery/"+c16ServiceB
+	e.defs = map[string]ServiceDefinition{c16Service: c16Definition(e.authority.did), c16ServiceB: defB}
 	vctx := vcr.NewTestVCRContext(t, nutscrypto.NewMemoryCryptoInstance(t))
 	e.vcr = vctx.VCR
 	s1 := storage.NewTestStorageEngine(t)
@@ -313,7 +322,7 @@ func (e *c16Env) buildVP(o c16VPOpt) *c16VP {
 			"type":     types, "id": id, "holder": o.Signer.did, "verifiableCredential": o.Creds,
 			"proof": map[string]any{"type": "JsonWebSignature2020", "created": time.Unix(now, 0).UTC().Format(time.RFC3339),
 				"expires":            time.Unix(now+o.ExpIn, 0).UTC().Format(time.RFC3339),
-				"verificationMethod": o.Signer.kid, "proofPurpose": "assertionMethod", "domain": c16Service,
+				"verificationMethod": o.Signer.kid, "proofPurpose": "assertionMethod", "domain": c16Cur,
 				"jws": "eyJhbGciOiJFUzI1NiIsImI2NCI6ZmFsc2UsImNyaXQiOlsiYjY0Il19..AAAA"},
 		}
 		b, _ := json.Marshal(doc)
@@ -334,7 +343,7 @@ func (e *c16Env) buildVP(o c16VPOpt) *c16VP {
 			if o.Aud != nil {
 				claims["aud"] = o.Aud
 			} else {
-				claims["aud"] = []string{c16Service}
+				claims["aud"] = []string{c16Cur}
 			}
 		}
 		for k, v := range o.Extra {
@@ -488,7 +497,7 @@ func (e *c16Env) ref(f c16Facts, now int64, listedID func(string) string) (bool,
 		return false, "not-a-jwt-presentation"
 	case f.ID == "":
 		return false, "no-id"
-	case !c16Has(f.Aud, c16Service):
+	case !c16Has(f.Aud, c16Cur): // addressed to the service it is offered to / listed on
 		return false, "audience"
 	case f.Exp == 0:
 		return false, "no-expiry"
@@ -554,15 +563,26 @@ type c16Event struct {
 	// real code happens to take the named order (rejection sampling over the runtime's map order), so each labelled
 	// poll is a deterministic transition and ALL resolutions are enumerated as separate events.
 	R string `json:"r,omitempty"`
+	// F (poll only): subject letter whose presentations the client's verifier cannot verify DURING this poll (transient
+	// environment failure, gone afterwards): the entry is stored unvalidated and is left to the validate pass.
+	F string `json:"f,omitempty"`
 }
 
 func (ev c16Event) String() string {
 	switch ev.Op {
 	case "poll":
+		out := "poll"
 		if ev.R != "" {
-			return "poll[last=" + ev.R + "]"
+			out += "[last=" + ev.R + "]"
 		}
-		return ev.Op
+		if ev.F != "" {
+			out += "[verifier fails for " + ev.F + "]"
+		}
+		return out
+	case "validate":
+		return "validate(client)"
+	case "regb", "retractb":
+		return fmt.Sprintf("%s(%c)@B", strings.TrimSuffix(ev.Op, "b"), 'a'+ev.S)
 	case "expire", "reset", "resetreg":
 		return ev.Op
 	case "restart":
@@ -588,6 +608,13 @@ type c16Config struct {
 	// ids — everything built from the state or tried per subject) plus three representatives are offered; the full
 	// alphabet is offered in every shallower state. Quick tier only.
 	LeafLight bool
+	Small     bool // no reset / reset+register / restart events (restarts are still performed in every new state by judge)
+	// Validation: the client-side validation path as events: poll = fetch only (entries that fail verification are stored
+	// unvalidated), poll with a transient verifier failure for one subject, validate(client) = the product's validate() pass
+	Validation bool
+	// TwoServices: a second service on the same server and client: register / retract per service, polls fetch both, all
+	// oracles per service, and an event on one service must change nothing observable on the other
+	TwoServices bool
 }
 
 type c16Entry struct {
@@ -608,16 +635,24 @@ func c16RoundTrip(vp vc.VerifiablePresentation) (vc.VerifiablePresentation, erro
 	return out, err
 }
 
-func (d c16Direct) Register(ctx context.Context, _ string, presentation vc.VerifiablePresentation) error {
+// c16SvcOf: the REST layer addresses a service by its endpoint URL; "" = the service the harness currently works on.
+func c16SvcOf(endpoint string) string {
+	if i := strings.LastIndex(endpoint, "/"); i >= 0 && endpoint[i+1:] != "" {
+		return endpoint[i+1:]
+	}
+	return c16Cur
+}
+
+func (d c16Direct) Register(ctx context.Context, endpoint string, presentation vc.VerifiablePresentation) error {
 	vp, err := c16RoundTrip(presentation)
 	if err != nil {
 		return err
 	}
-	return d.w.srv.Register(ctx, c16Service, vp)
+	return d.w.srv.Register(ctx, c16SvcOf(endpoint), vp)
 }
 
-func (d c16Direct) Get(ctx context.Context, _ string, timestamp int) (map[string]vc.VerifiablePresentation, string, int, error) {
-	m, seed, ts, err := d.w.srv.Get(ctx, c16Service, timestamp)
+func (d c16Direct) Get(ctx context.Context, endpoint string, timestamp int) (map[string]vc.VerifiablePresentation, string, int, error) {
+	m, seed, ts, err := d.w.srv.Get(ctx, c16SvcOf(endpoint), timestamp)
 	if err != nil {
 		return nil, "", 0, err
 	}
@@ -647,6 +682,8 @@ type c16World struct {
 	hadReset bool
 	canon    string
 	dirty    bool // a violation polluted the instance: skip the remaining checks of this state
+	svcModel map[string]*c16SvcModel // reference list of the services the harness is not currently working on
+	failing  string                  // DID whose presentations the CLIENT's verifier cannot verify right now (transient environment failure)
 	retry    bool // a labelled poll took another map order than the label names: replay again
 	unreal   bool // no replay produced the labelled order: the label is not realisable in this state
 	added    []string // raw presentations in the order the client added them during the current poll
@@ -665,14 +702,72 @@ func (w *c16World) serverRows() ([]c16Row, string, int) {
 	return w.rowsC, w.seedC, w.tsC
 }
 
+type c16SvcModel struct {
+	model   map[string]*c16Entry
+	modelTs int
+}
+
+// on runs fn with the harness helpers switched to service svc (rows, reference predicate, minted audiences, reference list).
+func (w *c16World) on(svc string, fn func()) {
+	if svc == c16Cur {
+		fn()
+		return
+	}
+	old := c16Cur
+	w.svcModel[old] = &c16SvcModel{w.model, w.modelTs}
+	m := w.svcModel[svc]
+	if m == nil {
+		m = &c16SvcModel{model: map[string]*c16Entry{}}
+	}
+	c16Cur, w.model, w.modelTs, w.rowsOK = svc, m.model, m.modelTs, false
+	defer func() {
+		w.svcModel[svc] = &c16SvcModel{w.model, w.modelTs}
+		c16Cur, w.model, w.modelTs, w.rowsOK = old, w.svcModel[old].model, w.svcModel[old].modelTs, false
+	}()
+	fn()
+}
+
+func (w *c16World) services() []string {
+	if w.cfg.TwoServices {
+		return []string{c16Service, c16ServiceB}
+	}
+	return []string{c16Service}
+}
+
+// otherServices: observable state (live rows, seed, timestamp) of every service except the current one, on one side.
+func (w *c16World) otherServices(db *gorm.DB) string {
+	if !w.cfg.TwoServices {
+		return ""
+	}
+	var sb strings.Builder
+	cur := c16Cur
+	now := w.e.now()
+	for _, svc := range w.services() {
+		if svc == cur {
+			continue
+		}
+		c16Cur = svc
+		rows, seed, ts := c16Rows(w.e.t, db)
+		c16Cur = cur
+		fmt.Fprintf(&sb, "%s[%s %d]", svc, seed, ts)
+		for _, r := range rows {
+			if r.Exp > now { // expired rows are pruned by ANY add (the prune is not per service) and are invisible anyway
+				fmt.Fprintf(&sb, "(%s %d %v)", r.ID, r.Ts, r.Validated)
+			}
+		}
+	}
+	return sb.String()
+}
+
 func (e *c16Env) newWorld(cfg c16Config) *c16World {
+	c16Cur = c16Service
 	c16Wipe(e.t, e.srvDB)
 	c16Wipe(e.t, e.cliDB)
 	vtime.Freeze(e.base)
 	e.rndCtr, e.rndBuf = 0, nil
 	uuid.SetRand(c16Rand{e})
 	w := &c16World{e: e, cfg: cfg, model: map[string]*c16Entry{}, prev: make([]*c16VP, cfg.K), known: map[string]bool{},
-		injected: map[string]bool{}, lastTs: map[string]int{}, superBy: map[string]*c16VP{}}
+		injected: map[string]bool{}, lastTs: map[string]int{}, superBy: map[string]*c16VP{}, svcModel: map[string]*c16SvcModel{}}
 	w.direct = c16Direct{w}
 	w.bootServer()
 	w.bootClient()
@@ -707,10 +802,19 @@ func (w *c16World) bootClient() {
 		e.t.Fatalf("client Start: %v", err)
 	}
 	cli := w.cli
-	w.cli.clientUpdater.verifier = func(def ServiceDefinition, vp vc.VerifiablePresentation) error {
-		w.added = append(w.added, vp.Raw()) // updateService verifies right after every add: this is the processing order
+	// the client's verifier with an environment answer: presentations of the DID in w.failing cannot be verified at the
+	// moment (e.g. the DID cannot be resolved) — a TRANSIENT failure, gone as soon as w.failing is cleared
+	verify := func(def ServiceDefinition, vp vc.VerifiablePresentation) error {
+		if signer, err := credential.PresentationSigner(vp); err == nil && w.failing != "" && signer.String() == w.failing {
+			return errors.New("verif: transient failure: unable to resolve the signer's DID right now")
+		}
 		return cli.verifyRegistration(def, vp)
 	}
+	w.cli.clientUpdater.verifier = func(def ServiceDefinition, vp vc.VerifiablePresentation) error {
+		w.added = append(w.added, vp.Raw()) // updateService verifies right after every add: this is the processing order
+		return verify(def, vp)
+	}
+	w.cli.registrationManager.verifier = verify
 }
 
 // restartChecks: restart(server) and restart(client) in the current state; a restart must change NOTHING observable
@@ -771,7 +875,7 @@ type c16Row struct {
 
 func c16Rows(t *testing.T, db *gorm.DB) (rows []c16Row, seed string, ts int) {
 	var recs []presentationRecord
-	if err := db.Order("lamport_timestamp ASC, credential_subject_id ASC").Find(&recs, "service_id = ?", c16Service).Error; err != nil {
+	if err := db.Order("lamport_timestamp ASC, credential_subject_id ASC").Find(&recs, "service_id = ?", c16Cur).Error; err != nil {
 		t.Fatal(err)
 	}
 	for _, r := range recs {
@@ -779,7 +883,7 @@ func c16Rows(t *testing.T, db *gorm.DB) (rows []c16Row, seed string, ts int) {
 			ID: r.PresentationID, Exp: r.PresentationExpiration, Validated: r.Validated.Bool()})
 	}
 	var svc serviceRecord
-	if err := db.Find(&svc, "id = ?", c16Service).Error; err != nil {
+	if err := db.Find(&svc, "id = ?", c16Cur).Error; err != nil {
 		t.Fatal(err)
 	}
 	return rows, svc.Seed, svc.LastLamportTimestamp
@@ -807,6 +911,7 @@ func (w *c16World) submit(vp *c16VP, label string, honest bool) bool {
 		return ""
 	}
 	ok, clause := e.ref(vp.Facts, now, listed)
+	othersBefore := w.otherServices(e.srvDB)
 	duplicate := false
 	for _, r := range pre {
 		if r.Signer == vp.Facts.Signer && r.ID == vp.Facts.ID && vp.Facts.ID != "" {
@@ -816,6 +921,11 @@ func (w *c16World) submit(vp *c16VP, label string, honest bool) bool {
 	err := w.direct.Register(context.Background(), "", vp.VP)
 	accepted := err == nil
 	e.stats["submissions"]++
+	if w.cfg.TwoServices && !w.dirty && w.otherServices(e.srvDB) != othersBefore {
+		w.violation("C16|server|event-on-one-service-changed-another",
+			fmt.Sprintf("offering a presentation (%s) to service %s changed the live entries, seed or timestamp of another service", label, c16Cur))
+		return accepted
+	}
 	if accepted {
 		e.r.Outcome("register:accepted")
 	} else {
@@ -860,12 +970,12 @@ func (w *c16World) submit(vp *c16VP, label string, honest bool) bool {
 	if mine == nil {
 		e.r.Observation("accepted-registration-not-listed", map[string]any{"label": label, "hist": w.histStrings()})
 	} else {
-		if last, seen := w.lastTs[postSeed]; seen && mine.Ts <= last {
+		if last, seen := w.lastTs[c16Cur+"|"+postSeed]; seen && mine.Ts <= last {
 			w.violation("C16|server|timestamp-not-increasing",
 				fmt.Sprintf("registration got timestamp %d after %d had been handed out under the same seed", mine.Ts, last))
 		}
-		if mine.Ts > w.lastTs[postSeed] {
-			w.lastTs[postSeed] = mine.Ts
+		if mine.Ts > w.lastTs[c16Cur+"|"+postSeed] {
+			w.lastTs[c16Cur+"|"+postSeed] = mine.Ts
 		}
 		if postTs < mine.Ts {
 			w.violation("C16|server|service-timestamp-behind-entry", fmt.Sprintf("service timestamp %d < entry timestamp %d", postTs, mine.Ts))
@@ -918,7 +1028,7 @@ func (w *c16World) reset() {
 // pollMenu: the poll events of the current state — one per resolution of the batch's processing order (see c16Event.R).
 func (w *c16World) pollMenu() []c16Event {
 	_, _, cts := c16Rows(w.e.t, w.e.cliDB)
-	batch, _, _, err := w.srv.Get(context.Background(), c16Service, cts)
+	batch, _, _, err := w.srv.Get(context.Background(), c16Cur, cts)
 	if err != nil {
 		w.e.t.Fatal(err)
 	}
@@ -932,7 +1042,25 @@ func (w *c16World) pollMenu() []c16Event {
 		}
 	}
 	if len(batch) < 2 || len(expired) == 0 {
-		return []c16Event{{Op: "poll"}}
+		evs := []c16Event{{Op: "poll"}}
+		if w.cfg.Validation {
+			// one more poll per subject whose (otherwise verifiable) new entry meets a transient verifier failure
+			var fs []string
+			for _, vp := range batch {
+				f := w.e.facts(vp.Raw())
+				held, _ := w.cli.store.exists(c16Cur, f.Signer, f.ID)
+				if ok, _ := w.e.ref(f, now, nil); ok && !held {
+					if i := w.subjectIdx(f.Signer); i >= 0 && i < w.cfg.K {
+						fs = append(fs, string(rune('a'+i)))
+					}
+				}
+			}
+			sort.Strings(fs)
+			for _, x := range fs {
+				evs = append(evs, c16Event{Op: "poll", F: x})
+			}
+		}
+		return evs
 	}
 	sort.Strings(expired)
 	var evs []c16Event
@@ -946,9 +1074,16 @@ func (w *c16World) pollMenu() []c16Event {
 }
 
 // pollLabelled performs a poll and checks that the real code took the processing order the label names.
-func (w *c16World) pollLabelled(label string) {
+func (w *c16World) pollLabelled(label string, failing string) {
 	w.added = nil
-	w.poll()
+	if failing != "" {
+		w.failing = w.e.subjects[int(failing[0]-'a')].did
+	}
+	w.fetch()
+	w.failing = ""
+	if !w.cfg.Validation {
+		w.validatePass() // the node's periodic update does fetch + validate in one tick; with Validation they are separate events
+	}
 	if label == "" || len(w.added) == 0 {
 		return // unambiguous batch, or nothing was added (every label leads to the same state)
 	}
@@ -964,19 +1099,39 @@ func (w *c16World) pollLabelled(label string) {
 	}
 }
 
-func (w *c16World) poll() {
+// fetch: the client's updateService for every followed service (fixed order; the product ranges over a map, but the
+// services are independent — which the isolation clause below checks).
+func (w *c16World) fetch() {
 	ctx := context.Background()
-	if err := w.cli.clientUpdater.updateService(ctx, w.e.defs[c16Service]); err != nil {
-		w.e.r.Observation("client-update-error", map[string]any{"error": err.Error(), "hist": w.histStrings()})
-		w.e.stats["poll_errors"]++
+	for _, svc := range w.services() {
+		w.on(svc, func() {
+			before := w.otherServices(w.e.cliDB)
+			if err := w.cli.clientUpdater.updateService(ctx, w.e.defs[svc]); err != nil {
+				w.e.r.Observation("client-update-error", map[string]any{"error": err.Error(), "hist": w.histStrings()})
+				w.e.stats["poll_errors"]++
+			}
+			if w.cfg.TwoServices && !w.dirty && w.otherServices(w.e.cliDB) != before {
+				w.violation("C16|client|event-on-one-service-changed-another",
+					fmt.Sprintf("the client's update of service %s changed its live entries, seed or timestamp of another service", svc))
+			}
+		})
 	}
+	w.e.stats["polls"]++
+}
+
+// validatePass: the product's own background pass over stored-but-unvalidated entries (+ removal of revoked ones)
+func (w *c16World) validatePass() {
 	if err := w.cli.registrationManager.validate(); err != nil {
 		w.e.r.Observation("client-validate-error", map[string]any{"error": err.Error(), "hist": w.histStrings()})
 	}
 	if err := w.cli.registrationManager.removeRevoked(); err != nil {
 		w.e.r.Observation("client-removeRevoked-error", map[string]any{"error": err.Error(), "hist": w.histStrings()})
 	}
-	w.e.stats["polls"]++
+}
+
+func (w *c16World) poll() {
+	w.fetch()
+	w.validatePass()
 }
 
 func (w *c16World) apply(ev c16Event) {
@@ -1013,7 +1168,21 @@ func (w *c16World) apply(ev c16Event) {
 	case "expire":
 		vtime.Advance(c16Advance)
 	case "poll":
-		w.pollLabelled(ev.R)
+		w.pollLabelled(ev.R, ev.F)
+	case "validate":
+		w.validatePass()
+	case "regb":
+		w.on(c16ServiceB, func() { w.submit(w.regVP(ev.S, c16Long), "fresh registration on service B", true) })
+	case "retractb":
+		w.on(c16ServiceB, func() {
+			en := w.model[e.subjects[ev.S].did]
+			if en == nil {
+				return
+			}
+			vp := e.buildVP(c16VPOpt{Signer: e.subjects[ev.S], ExpIn: c16Long, Types: []string{c16RetractType},
+				Extra: map[string]any{"retract_jti": en.VP.Facts.ID}})
+			w.submit(vp, "retraction by the signer on service B", true)
+		})
 	case "restart":
 		if ev.S == 0 {
 			w.bootServer()
@@ -1035,7 +1204,7 @@ func (w *c16World) apply(ev c16Event) {
 // inject puts a presentation on the server's list without asking the server's checks (malicious server).
 func (w *c16World) inject(vp *c16VP) {
 	now := w.e.now()
-	rec, err := w.srv.store.add(c16Service, vp.VP, "", 0)
+	rec, err := w.srv.store.add(c16Cur, vp.VP, "", 0)
 	if err != nil {
 		w.e.t.Fatalf("inject: %v", err)
 	}
@@ -1056,8 +1225,8 @@ func (w *c16World) inject(vp *c16VP) {
 	w.modelTs++
 	w.model[vp.Facts.Signer] = &c16Entry{Ts: w.modelTs, VP: vp, Kind: "injected"}
 	_, seed, ts := w.serverRows()
-	if ts > w.lastTs[seed] {
-		w.lastTs[seed] = ts
+	if ts > w.lastTs[c16Cur+"|"+seed] {
+		w.lastTs[c16Cur+"|"+seed] = ts
 	}
 }
 
@@ -1073,7 +1242,21 @@ func (w *c16World) enabled() []c16Event {
 			evs = append(evs, c16Event{Op: "regshort", S: s})
 		}
 	}
-	evs = append(evs, c16Event{Op: "resetreg"})
+	if !w.cfg.Small {
+		evs = append(evs, c16Event{Op: "resetreg"})
+	}
+	if w.cfg.TwoServices {
+		for s := 0; s < k; s++ {
+			evs = append(evs, c16Event{Op: "regb", S: s})
+		}
+		if m := w.svcModel[c16ServiceB]; m != nil {
+			for s := 0; s < k; s++ {
+				if en := m.model[w.e.subjects[s].did]; en != nil && en.Kind == "reg" {
+					evs = append(evs, c16Event{Op: "retractb", S: s})
+				}
+			}
+		}
+	}
 	if w.cfg.Inject {
 		for s := 0; s < k && s < w.cfg.InjectS; s++ {
 			evs = append(evs, c16Event{Op: "inject", S: s})
@@ -1095,7 +1278,16 @@ func (w *c16World) enabled() []c16Event {
 	}
 	evs = append(evs, c16Event{Op: "expire"})
 	evs = append(evs, w.pollMenu()...)
-	evs = append(evs, c16Event{Op: "reset"}, c16Event{Op: "restart", S: 0}, c16Event{Op: "restart", S: 1})
+	if w.cfg.Validation {
+		var n int64
+		w.e.cliDB.Model(&presentationRecord{}).Where("validated = 0").Count(&n)
+		if n > 0 {
+			evs = append(evs, c16Event{Op: "validate"})
+		}
+	}
+	if !w.cfg.Small {
+		evs = append(evs, c16Event{Op: "reset"}, c16Event{Op: "restart", S: 0}, c16Event{Op: "restart", S: 1})
+	}
 	return evs
 }
 
@@ -1106,6 +1298,14 @@ func (w *c16World) enabled() []c16Event {
 // (signer, which presentation, validated, lifetime), client timestamp and whether its seed equals the
 // server's, and the replay candidates.
 func (w *c16World) computeCanon() string {
+	out := w.canonOfCurrent()
+	if w.cfg.TwoServices {
+		w.on(c16ServiceB, func() { out += " || B: " + w.canonOfCurrent() })
+	}
+	return out
+}
+
+func (w *c16World) canonOfCurrent() string {
 	e := w.e
 	now := e.now()
 	names := map[string]int{}
@@ -1186,7 +1386,7 @@ func (w *c16World) checkServerState() {
 		}
 	}
 	// API view equals the rows
-	got, gseed, gts, err := w.srv.Get(context.Background(), c16Service, 0)
+	got, gseed, gts, err := w.srv.Get(context.Background(), c16Cur, 0)
 	if err != nil {
 		e.t.Fatalf("Get: %v", err)
 	}
@@ -1209,7 +1409,7 @@ func (w *c16World) checkServerState() {
 }
 
 func (w *c16World) searchRaws() []string {
-	res, err := w.cli.Search(c16Service, nil)
+	res, err := w.cli.Search(c16Cur, nil)
 	if err != nil {
 		w.e.t.Fatalf("Search: %v", err)
 	}
@@ -1261,6 +1461,14 @@ func (w *c16World) serverLive() (live []string, tsOf map[string]int) {
 }
 
 func (w *c16World) clientSnapshot() string {
+	out := ""
+	for _, svc := range w.services() {
+		w.on(svc, func() { out += w.clientSnapshotOfCurrent() })
+	}
+	return out
+}
+
+func (w *c16World) clientSnapshotOfCurrent() string {
 	rows, seed, ts := c16Rows(w.e.t, w.e.cliDB)
 	now := w.e.now()
 	var live []c16Row
@@ -1293,6 +1501,16 @@ func (w *c16World) fairSuffix() {
 	if int64(rounds) > e.stats["max_suffix_rounds"] {
 		e.stats["max_suffix_rounds"] = int64(rounds)
 	}
+	for _, svc := range w.services() {
+		if !w.dirty {
+			w.on(svc, w.compareWithServer)
+		}
+	}
+}
+
+// compareWithServer: after the fair suffix the client's Search of the current service must be that service's live set.
+func (w *c16World) compareWithServer() {
+	e := w.e
 	got := w.checkClientSearch("after fair suffix")
 	want, tsOf := w.serverLive()
 	_, _, cts := c16Rows(e.t, e.cliDB)
@@ -1550,6 +1768,13 @@ func (w *c16World) offerDefects() int {
 		if light && !d.State && !d.PerS && d.Label != "wrong audience" && d.Label != "bad presentation signature" && d.Label != "surplus credential" {
 			continue
 		}
+		if light && strings.HasPrefix(d.Label, "retraction of the listed entry + ") {
+			switch strings.TrimPrefix(d.Label, "retraction of the listed entry + ") {
+			case "valid too long", "valid 365 days", "no exp", "wrong audience", "bad presentation signature", "own id equals the listed id":
+			default:
+				continue // quick tier, deepest level: six of the twelve retraction variants
+			}
+		}
 		subjects := []int{0}
 		if d.PerS {
 			subjects = subjects[:0]
@@ -1617,8 +1842,10 @@ func (e *c16Env) build(cfg c16Config, hist []c16Event) *c16World {
 	if n := len(hist); n > 0 && hist[n-1].Op == "poll" && hist[n-1].R != "" {
 		e.pollLabels[c16HistKey(cfg.Name, hist[:n-1])] |= 1
 	}
-	if !w.dirty {
-		w.checkServerState() // list-shape clauses: every prefix of a BFS history was itself a BFS state
+	for _, svc := range w.services() {
+		if !w.dirty {
+			w.on(svc, w.checkServerState) // list-shape clauses: every prefix of a BFS history was itself a BFS state
+		}
 	}
 	w.canon = w.computeCanon()
 	// determinism self-test: the same history must always give the same canonical state
@@ -1636,7 +1863,11 @@ func (w *c16World) judge() (selfLoops int) {
 	if w.dirty {
 		return 0
 	}
-	w.checkClientSearch("in state")
+	for _, svc := range w.services() {
+		if !w.dirty {
+			w.on(svc, func() { w.checkClientSearch("in state") })
+		}
+	}
 	if w.cfg.Defects && !w.dirty {
 		selfLoops = w.offerDefects()
 		if !w.dirty {
@@ -1654,9 +1885,15 @@ func (w *c16World) judge() (selfLoops int) {
 
 func c16Configs(thorough bool) []c16Config {
 	if !thorough {
-		return []c16Config{{Name: "full-k2", K: 2, Depth: 4, Split: 2, Short: true, Inject: true, InjectS: 2, Replay: true, Defects: true, LeafLight: true}}
+		return []c16Config{
+			{Name: "full-k2", K: 2, Depth: 4, Split: 2, Short: true, Inject: true, InjectS: 2, Replay: true, Defects: true, LeafLight: true},
+			{Name: "validation-k2", K: 2, Depth: 4, Split: 2, Inject: true, InjectS: 2, Small: true, Validation: true},
+			{Name: "services-k2", K: 2, Depth: 4, Split: 2, Small: true, TwoServices: true},
+		}
 	}
 	return []c16Config{
+		{Name: "validation-k2", K: 2, Depth: 5, Split: 3, Short: true, Inject: true, InjectS: 2, Small: true, Validation: true, Defects: true},
+		{Name: "services-k2", K: 2, Depth: 5, Split: 3, Small: true, TwoServices: true, Defects: true},
 		{Name: "full-k2", K: 2, Depth: 5, Split: 3, Short: true, Inject: true, InjectS: 2, Replay: true, Defects: true},
 		{Name: "core-k2", K: 2, Depth: 6, Split: 3, Defects: false},
 		{Name: "core-k3", K: 3, Depth: 5, Split: 3, Replay: true, Defects: true},
@@ -1668,7 +1905,8 @@ func TestVerifC16BFS(t *testing.T) {
 	defer r.Finish()
 	e := c16NewEnv(t, r)
 	r.Rule("explicit-state BFS over event histories {register(s,7h), register(s,1h), retract(s), third-party replay(s), " +
-		"malicious-server inject(s), expire(+2h), poll, server reset, reset+register×k, restart(server), restart(client) — a new Module started " +
+		"malicious-server inject(s), expire(+2h), poll, poll with a transient failure of the client's verifier for one subject, validate(client), " +
+		"register / retract on a SECOND service (configurations validation-* and services-*), server reset, reset+register×k, restart(server), restart(client) — a new Module started " +
 		"through Module.Start on the SAME database} on a real server Module and a real client " +
 		"Module (two SQLite databases, real verifier, virtual clock); a state = canonical form of both databases + replay candidates; " +
 		"in every new state the defective-registration alphabet (25 kinds of defective registration / retraction, plus 12 generic defects applied to a retraction " +
@@ -1688,7 +1926,7 @@ func TestVerifC16BFS(t *testing.T) {
 		return // the replay file belongs to another part
 	}
 	if r.ReplayCase(&rc) {
-		for _, cfg := range c16Configs(true) {
+		for _, cfg := range append(c16Configs(true), c16Configs(false)...) {
 			if cfg.Name == rc.Config {
 				cfg.Defects = true
 				for i := 0; i <= len(rc.Hist); i++ {
